@@ -40,7 +40,7 @@ for k in (0, 2, 4):
         if k == 0 and op != 0:
             continue
         inst("tb_edit__%s_k%d" % (opn, k), "tabs", "t_tb_edit(%d, 40, %d)" % (k, op), k + 4,
-             {"C18": Q if k == 2 else T, "C01": T},
+             {"C18": Q if k == 2 else T, "C01": T}, optional_covers=["a new stop is set", "an existing stop is cleared"],
              desc="Tabs::%s at any column from any G6 set of %d stops" % (opn, k),
              bounds="width<=40, %d stops" % k)
 for k in (0, 1, 2, 4):
@@ -203,3 +203,147 @@ for op in MODE_OPS:
     if op in ("Ed3", "XtwinopsOff"):
         props["C20"] = Q
     nocell(op, 3, 3, props)
+
+# ----------------------------------------------------------------------------- the rotate stub against its contract
+for n in (1, 2, 3, 5, 8):
+    inst("rotate_stub__len%d" % n, "kv", "t_rotate_stub(%d)" % n, 10,
+         {"C06": Q if n == 3 else T, "C07": Q if n == 3 else T, "C04": T},
+         stubs=[ROTATE_STUB], desc="the element-wise replacement of core::slice::rotate::ptr_rotate meets the rotate_left/right contract",
+         bounds="slice length %d, any count" % n)
+
+# ----------------------------------------------------------------------------- terminal: scrolling family (C06)
+SCROLL_OPT = ["missing / zero count", "count larger than the range", "count 65535"]
+
+
+def scroll(op, cols, rows, row, top, bottom, props, sb=1, alt=2, limit="Some(1)", parked=(0, 0), mem=6, suffix="", fill="Fill::SymOnePen", nfix=None):
+    kw = dict(sb=sb, alt=alt, limit=limit, crow=row, top=top, bottom=bottom, ccol="SYM", parked_rows=parked[0], parked_sb=parked[1], fill=fill)
+    fixed_count = op in ("Lf", "Nel", "Ri") or nfix is not None
+    if nfix is not None:
+        suffix += "_n%d" % nfix
+    inst("sc_%s__%dx%d_r%d_m%d%d%s" % (op.lower(), cols, rows, row, top, bottom, suffix), "terminal",
+         "t_scroll(%s, ScrollOp::%s, %s)" % (tcfg(cols, rows, **kw), op, "u32::MAX" if nfix is None else str(nfix)), max(cols, rows + sb + rows) + 3, props, mem=mem,
+         stubs=[ROTATE_STUB], timeout=1500,
+         desc="execute(%s%s): rows of the range shift by min(n,height), vacated rows blank in the current pen, other lines unchanged, "
+              "scrollback grows only for an upward scroll starting at row 0, cursor, marks, frame, InvT" % (op, "" if fixed_count else "(n)"),
+         bounds=geo_desc(cols, rows, **kw) + ("; n = %d" % nfix if nfix is not None else ("" if fixed_count else "; n any u16")),
+         optional_covers=SCROLL_OPT if fixed_count else [])
+
+
+# quick: one instance per op on 3-column screens with a region strictly inside the screen where possible
+for op, (cols, rows, row, top, bottom) in {
+        "Su": (3, 4, 0, 1, 2), "Sd": (3, 4, 3, 1, 2), "Il": (3, 4, 1, 1, 2), "Dl": (3, 4, 2, 1, 3),
+        "Lf": (3, 3, 2, 0, 2), "Nel": (3, 3, 1, 0, 1), "Ri": (3, 3, 1, 1, 2)}.items():
+    scroll(op, cols, rows, row, top, bottom, {"C06": Q, "C15": Q if op in ("Il", "Su") else T, "C02": Q if op in ("Dl", "Lf") else T,
+                                               "C14": Q if op in ("Lf", "Dl") else T, "C17": T, "C16": T, "C01": T})
+scroll("Su", 3, 3, 1, 0, 1, {"C06": Q, "C14": Q, "C13": T, "C15": T, "C01": T})          # partial region anchored at the top: insert path
+scroll("Dl", 3, 3, 0, 0, 2, {"C06": Q, "C14": Q, "C01": T}, nfix=2)                       # DL at the top row feeds the scrollback
+# thorough: every (cursor row, margin pair) of a 3-row screen for every op
+for op in ("Su", "Sd", "Il", "Dl", "Lf", "Nel", "Ri"):
+    for (top, bottom) in ((0, 1), (0, 2), (1, 2)):
+        for row in (0, 1, 2):
+            nm = "sc_%s__3x3_r%d_m%d%d" % (op.lower(), row, top, bottom)
+            if nm in _names:
+                continue
+            if (op == "Su" and (top, bottom) == (0, 2)) or (op == "Dl" and row == 0 and bottom == 2):
+                # whole-view upward scroll: Buffer::extend(n) -> Vec::extend with a symbolic count does not
+                # finish in CBMC, so the count is a constant of the instance here
+                for nf in (0, 1, 2, 3, 4, 65535):
+                    if "sc_%s__3x3_r%d_m%d%d_n%d" % (op.lower(), row, top, bottom, nf) in _names:
+                        continue
+                    scroll(op, 3, 3, row, top, bottom, {"C06": Q if (op, row, nf) == ("Su", 1, 2) else T, "C14": T, "C13": T, "C15": T}, nfix=nf)
+                continue
+            scroll(op, 3, 3, row, top, bottom, {"C06": T, "C15": T, "C02": T, "C14": T, "C05": T if op in ("Lf", "Nel", "Ri") else None} if False else
+                   {k: v for k, v in {"C06": T, "C15": T, "C02": T, "C14": T, "C05": (T if op in ("Lf", "Nel", "Ri") else None)}.items() if v})
+for op in ("Su", "Il", "Dl", "Lf"):
+    scroll(op, 1, 1, 0, 0, 0, {"C06": T, "C01": Q if op in ("Il", "Lf") else T}, sb=0)
+    scroll(op, 2, 2, 0, 0, 1, {"C06": T, "C01": T}, sb=2, limit="None", alt=0, suffix="_sb2")
+
+# ----------------------------------------------------------------------------- terminal: erase / edit / print / rep
+def erase(op, cols, rows, props, sb=1, alt=2, mem=6, suffix=""):
+    kw = dict(sb=sb, alt=alt, limit="Some(1)")
+    opt = ["a cell of another row is erased"] if op in ("El0", "El1", "El2", "Ech") else []
+    if rows == 1:
+        opt += ["a cell of another row is erased"]
+    if cols == 1:
+        opt += ["a cell of the cursor row survives"]
+    if sb == 0:
+        opt += ["a scrollback line is watched"]
+    inst("er_%s__%dx%d%s" % (op.lower(), cols, rows, suffix), "terminal", "t_erase(%s, EraseOp::%s)" % (tcfg(cols, rows, **kw), op),
+         max(cols, rows + sb) + 3, props, mem=mem, timeout=1500,
+         desc="execute(%s): exactly the extent is blanked in the current pen, soft-wrap mark cleared when the tail is erased, everything else unchanged" % op,
+         bounds=geo_desc(cols, rows, **kw) + "; n any u16", optional_covers=opt)
+
+
+for op in ("Ed0", "Ed1", "Ed2", "El0", "El1", "El2", "Ech"):
+    erase(op, 3, 3, {"C07": Q, "C15": Q if op in ("Ed1", "Ech") else T, "C02": Q if op == "Ed0" else T, "C08": Q if op == "El0" else T,
+                     "C14": Q if op == "Ed2" else T, "C16": T, "C17": T, "C01": T})
+    erase(op, 1, 1, {"C07": T, "C01": Q if op in ("Ed1", "Ech", "El1") else T}, sb=0, suffix="")
+    erase(op, 4, 2, {"C07": T, "C15": T}, sb=0, alt=0)
+
+
+def edit(op, cols, rows, props, sb=1, alt=2, mem=6, crow="SYM", ccol="SYM", suffix=""):
+    kw = dict(sb=sb, alt=alt, limit="Some(1)", crow=crow, ccol=ccol)
+    inst("ed_%s__%dx%d%s" % (op.lower(), cols, rows, suffix), "terminal", "t_edit(%s, EditOp::%s)" % (tcfg(cols, rows, **kw), op),
+         max(cols, rows + sb) + 3, props, mem=mem, timeout=1500, stubs=[ROTATE_STUB] if op != "Decaln" else [],
+         desc="execute(%s): exact extent / shift, blanks in the current pen (DECALN: E with the default pen), cursor, marks, frame" % op,
+         bounds=geo_desc(cols, rows, **kw) + "; n any u16",
+         optional_covers=["missing / zero count", "count 65535", "a shifted cell is watched", "a vacated cell is watched"] if op == "Decaln" else [])
+
+
+for op in ("Ich", "Dch"):
+    edit(op, 3, 2, {"C07": Q, "C15": Q, "C02": T, "C08": T, "C17": T, "C01": T})
+    edit(op, 4, 3, {"C07": T, "C15": T, "C02": T})
+    edit(op, 1, 1, {"C07": T, "C01": Q}, sb=0)
+edit("Decaln", 2, 2, {"C07": Q, "C15": Q, "C01": T})
+edit("Decaln", 3, 3, {"C07": T, "C15": T})
+inst("charset", "terminal", "t_charset()", 4, {"C04": Q, "C01": T},
+     desc="Charset::translate for every char under both sets against the VT100 special-graphics table", bounds="all chars")
+
+
+def prnt(cols, rows, row, top, bottom, props, sb=1, alt=2, limit="Some(1)", mem=8, suffix="", opt=(), rep=False):
+    kw = dict(sb=sb, alt=alt, limit=limit, crow=row, top=top, bottom=bottom)
+    if rep:
+        opt = list(opt) + ["drawing set", "astral character"]
+    inst("%s__%dx%d_r%d_m%d%d%s" % ("rep1" if rep else "pr", cols, rows, row, top, bottom, suffix), "terminal",
+         "t_print_or_rep(%s, %s)" % (tcfg(cols, rows, **kw), "true" if rep else "false"),
+         max(cols, rows + sb + 1) + 3, props, mem=mem, timeout=1500, stubs=[ROTATE_STUB],
+         desc="execute(Print(ch)): translated char + current pen in exactly one cell, cursor advance / wrap-pending / deferred wrap (mark, next row or region scroll), "
+              "insert mode shift, auto-wrap off overwrite, nothing else changes",
+         bounds=geo_desc(cols, rows, **kw) + "; every scalar value >= U+0020 except C1", optional_covers=list(opt))
+
+
+PR_OPT_NOSCROLL = ["wrap on the bottom margin scrolls the region"]
+PR_OPT_NOSTEP = ["wrap to the next row"]
+for (top, bottom) in ((0, 2), (0, 1), (1, 2)):
+    for row in (0, 1, 2):
+        opt = []
+        if row != bottom:
+            opt += PR_OPT_NOSCROLL
+        if row == bottom or row == 2:
+            opt += PR_OPT_NOSTEP
+        quick = (row, top, bottom) in ((2, 0, 2), (1, 0, 2), (1, 0, 1), (2, 1, 2), (2, 0, 1))
+        prnt(3, 3, row, top, bottom, {"C04": Q if quick else T, "C15": Q if (row, top, bottom) == (1, 0, 2) else T,
+                                       "C08": Q if (row, top, bottom) == (1, 0, 2) else T, "C02": Q if (row, top, bottom) == (2, 0, 2) else T,
+                                       "C06": Q if (row, top, bottom) == (2, 1, 2) else T, "C14": T, "C17": T, "C16": T, "C01": T}, opt=opt)
+prnt(1, 1, 0, 0, 0, {"C04": Q, "C01": Q}, sb=0, opt=PR_OPT_NOSTEP + ["insert mode in the middle of the row"])
+prnt(1, 3, 1, 0, 2, {"C04": T, "C01": T}, sb=0, opt=PR_OPT_NOSCROLL + ["insert mode in the middle of the row"], suffix="")
+prnt(3, 1, 0, 0, 0, {"C04": T, "C01": T}, sb=0, opt=PR_OPT_NOSTEP)
+prnt(2, 2, 1, 0, 1, {"C04": T, "C01": T}, sb=2, limit="None", alt=0, opt=PR_OPT_NOSTEP + ["insert mode in the middle of the row"], suffix="_sb2")
+
+
+def rep(cols, rows, row, top, bottom, n, props, sb=0, alt=0, mem=24):
+    kw = dict(sb=sb, alt=alt, limit="None", crow=row, top=top, bottom=bottom)
+    inst("rep__%dx%d_r%d_m%d%d_n%d" % (cols, rows, row, top, bottom, n), "terminal", "t_rep(%s, %d)" % (tcfg(cols, rows, **kw), n),
+         max(cols, rows + sb + 3) + 3, props, mem=mem, timeout=1500, stubs=[ROTATE_STUB],
+         desc="REP %d on a terminal == %d x Print(character left of the cursor) on a field-by-field copy: cells, marks, cursor, lines().len(), changed rows" % (n, max(n, 1)),
+         bounds=geo_desc(cols, rows, **kw))
+
+
+prnt(3, 3, 2, 0, 2, {"C04": Q, "C01": T}, rep=True, opt=PR_OPT_NOSTEP)
+prnt(3, 3, 1, 1, 2, {"C04": T}, rep=True, opt=PR_OPT_NOSCROLL)
+prnt(3, 3, 1, 0, 1, {"C04": T}, rep=True, opt=PR_OPT_NOSTEP)
+rep(3, 2, 1, 0, 1, 1, {"C04": T, "C01": T})
+rep(3, 2, 1, 0, 1, 2, {"C04": T, "C15": T})
+rep(3, 2, 0, 0, 1, 0, {"C04": T})
+rep(2, 2, 1, 0, 1, 3, {"C04": T, "C01": T})
+rep(3, 3, 1, 1, 2, 2, {"C04": T})
